@@ -83,7 +83,7 @@ pub fn main_authz(args: &[String]) -> anyhow::Result<()> {
     std::env::set_var("RNACOS_ENABLE_OPEN_API_AUTH", "true");
     std::env::set_var("RNACOS_CONSOLE_ENABLE_CAPTCHA", "false");
     std::env::set_var("RNACOS_CLUSTER_TOKEN", "verif-cluster-token");
-    if args[0] == "c16-restore-prepare" || args[0] == "c16-restore-check" {
+    if args[0] == "c16-restore-prepare" || args[0] == "c16-restore-check" || args[0] == "c16-lifecycle" {
         // a real login (3 s token life time) on a single-member node; the token survives in snapshot + log
         std::env::set_var("RNVERIF_LEADER", "1");
         std::env::set_var("RNACOS_API_LOGIN_TIMEOUT", "3");
@@ -104,7 +104,7 @@ pub fn main_authz(args: &[String]) -> anyhow::Result<()> {
             "grpc" | "grpc-inventory" => {
                 crate::grpcauth::run(app.clone(), mode.as_str(), &file).await?;
             }
-            "c16-restore-prepare" | "c16-restore-check" => {
+            "c16-restore-prepare" | "c16-restore-check" | "c16-lifecycle" => {
                 let w = crate::node::exec(&app, &json!({"op":"wait_leader","ms":20000})).await;
                 if w["res"] != "ok" {
                     return Err(anyhow::anyhow!("node did not become leader"));
@@ -114,7 +114,7 @@ pub fn main_authz(args: &[String]) -> anyhow::Result<()> {
                 let probe = |tok: String| {
                     test::TestRequest::get().uri(&format!("/nacos/v1/cs/configs?dataId=restore16&group=g&accessToken={}", tok)).to_request()
                 };
-                if mode == "c16-restore-prepare" {
+                if mode == "c16-restore-prepare" || mode == "c16-lifecycle" {
                     // the admin user is created asynchronously after the node became leader
                     let mut token = String::new();
                     for _ in 0..40 {
@@ -130,6 +130,20 @@ pub fn main_authz(args: &[String]) -> anyhow::Result<()> {
                     }
                     if token.is_empty() {
                         return Err(anyhow::anyhow!("login did not return a token"));
+                    }
+                    if mode == "c16-lifecycle" {
+                        // the life of one real token on the real middleware: the same token every 400 ms from the login
+                        // until well after its life time (3 s); one event per request (TokenLife.tla / Trace_TokenLife.tla)
+                        let t0 = std::time::Instant::now();
+                        println!("{}", json!({"event":"login","ttl_ms":3000}));
+                        while t0.elapsed() < std::time::Duration::from_millis(9500) {
+                            let t = t0.elapsed().as_millis() as u64;
+                            let resp = svc.call(probe(token.clone())).await;
+                            let served = match resp { Ok(r) => decision(&r)["decision"] != "forbidden", Err(e) => e.as_response_error().status_code().as_u16() != 403 };
+                            println!("{}", json!({"event":"use","t_ms":t,"decision": if served {"served"} else {"refused"}}));
+                            tokio::time::sleep(std::time::Duration::from_millis(400)).await;
+                        }
+                        return Ok(());
                     }
                     let resp = svc.call(probe(token.clone())).await;
                     let works = match resp { Ok(r) => decision(&r)["decision"] != "forbidden", Err(e) => e.as_response_error().status_code().as_u16() != 403 };
